@@ -45,8 +45,9 @@ Bit(v, k) == (v \div (2 ^ k)) % 2
 MortonX(i) == Bit(i, 0) + 2 * Bit(i, 2) + 4 * Bit(i, 4)
 MortonY(i) == Bit(i, 1) + 2 * Bit(i, 3) + 4 * Bit(i, 5)
 Morton(i)  == <<MortonX(i), MortonY(i)>>
+\* the inverse for x, y in 0..7 (bit j of x -> bit 2j, bit j of y -> bit 2j+1)
 ZInterleave(x, y) ==
-  Bit(x, 0) + 2 * Bit(y, 0) + 4 * Bit(x, 1) + 8 * Bit(y, 1) + 16 * Bit(x, 2) + 32 * Bit(y, 2)
+  (x % 2) + 2 * (y % 2) + 4 * ((x \div 2) % 2) + 8 * ((y \div 2) % 2) + 16 * (x \div 4) + 32 * (y \div 4)
 \* index (in pixels) of texel (x, y) in the payload: 8x8 tiles row-major, Z-order inside
 TileIndex(w, x, y) ==
   ((y \div 8) * (w \div 8) + (x \div 8)) * 64 + ZInterleave(x % 8, y % 8)
